@@ -142,7 +142,7 @@ pub struct CommentSpec {
     pub col: u32,
     pub row: u32,
     pub author: String,
-    /// run texts (non-empty)
+    /// run texts (a run may be empty)
     pub runs: Vec<String>,
     /// false: `Comment::default()` + coordinate only (no `new_comment()`, hence no VML shape data)
     pub with_shape: bool,
@@ -204,7 +204,24 @@ pub struct DxfSpec {
     pub italic: bool,
     pub font_argb: Option<String>,
     pub bg_argb: Option<String>,
+    #[serde(default)]
+    pub strike: bool,
+    /// 0 no border, else index+1 into BORDER_STYLES; applied to the sides of `border_sides`
+    #[serde(default)]
+    pub border_style: u8,
+    #[serde(default)]
+    pub border_argb: Option<String>,
+    /// bit 0 left, 1 right, 2 top, 3 bottom (0 = all four)
+    #[serde(default)]
+    pub border_sides: u8,
+    /// 0 none, 1 center, 2 right
+    #[serde(default)]
+    pub align: u8,
+    #[serde(default)]
+    pub wrap: bool,
 }
+
+pub const BORDER_STYLES: [&str; 4] = ["thin", "medium", "dashed", "double"];
 
 #[derive(Debug, Clone, Serialize, Deserialize, PartialEq)]
 pub enum ColorSpec {
@@ -752,8 +769,42 @@ fn build_sheet(ws: &mut Worksheet, s: &AnnotSheet) {
                         f.get_color_mut().set_argb(a.clone());
                     }
                 }
+                if d.strike {
+                    st.get_font_mut().set_strikethrough(true);
+                }
                 if let Some(a) = &d.bg_argb {
                     st.set_background_color(a.clone());
+                }
+                if d.border_style > 0 {
+                    let sides = if d.border_sides & 15 == 0 { 15 } else { d.border_sides & 15 };
+                    let style = BORDER_STYLES[(d.border_style as usize - 1) % BORDER_STYLES.len()];
+                    let bs = st.get_borders_mut();
+                    for bit in 0..4 {
+                        if sides & (1 << bit) == 0 {
+                            continue;
+                        }
+                        let side = match bit {
+                            0 => bs.get_left_mut(),
+                            1 => bs.get_right_mut(),
+                            2 => bs.get_top_mut(),
+                            _ => bs.get_bottom_mut(),
+                        };
+                        side.set_border_style(style);
+                        if let Some(a) = &d.border_argb {
+                            side.get_color_mut().set_argb(a.clone());
+                        }
+                    }
+                }
+                if d.align > 0 || d.wrap {
+                    let al = st.get_alignment_mut();
+                    match d.align {
+                        1 => al.set_horizontal(HorizontalAlignmentValues::Center),
+                        2 => al.set_horizontal(HorizontalAlignmentValues::Right),
+                        _ => {}
+                    }
+                    if d.wrap {
+                        al.set_wrap_text(true);
+                    }
                 }
                 rule.set_style(st);
             }
@@ -1228,7 +1279,7 @@ pub fn link_specs(max: usize) -> BoxedStrategy<Vec<LinkSpec>> {
         5 => url().prop_map(|u| (false, u)),
         2 => location().prop_map(|l| (true, l)),
     ];
-    sized_vec((col_pos(), row_pos(), target, prop::option::weighted(0.3, nonempty_text(12))).boxed(), max)
+    sized_vec((col_pos(), row_pos(), target, opt_text(0.3, nonempty_text(12))).boxed(), max)
         .prop_map(|v| {
             let mut seen = BTreeSet::new();
             v.into_iter()
@@ -1249,7 +1300,7 @@ pub fn author() -> BoxedStrategy<String> {
 }
 
 pub fn comment_specs(max: usize) -> BoxedStrategy<Vec<CommentSpec>> {
-    sized_vec((col_pos(), row_pos(), author(), prop::collection::vec(nonempty_text(16), 1..=3), prop::bool::weighted(0.15)).boxed(), max)
+    sized_vec((col_pos(), row_pos(), author(), prop::collection::vec(prop_oneof![9 => nonempty_text(16), 1 => Just(String::new())], 1..=3), prop::bool::weighted(0.15)).boxed(), max)
         .prop_map(|v| {
             let mut seen = BTreeSet::new();
             v.into_iter()
@@ -1266,6 +1317,16 @@ pub fn comment_specs(max: usize) -> BoxedStrategy<Vec<CommentSpec>> {
         .boxed()
 }
 
+/// an optional text: absent, present but EMPTY (its own class), or a real text
+fn opt_text(p_some: f64, t: BoxedStrategy<String>) -> BoxedStrategy<Option<String>> {
+    prop_oneof![
+        ((1.0 - p_some) * 100.0) as u32 => Just(None),
+        12 => Just(Some(String::new())),
+        (p_some * 100.0) as u32 => t.prop_map(Some),
+    ]
+    .boxed()
+}
+
 /// formula-like texts without edge blanks (the worksheet part is read with trimmed text nodes)
 fn small_formula() -> BoxedStrategy<String> {
     prop::sample::select(vec![
@@ -1279,13 +1340,15 @@ pub fn dv_specs(max: usize) -> BoxedStrategy<Vec<DvSpec>> {
     let payload = (
         (0u8..=8, 0u8..=8, opt_bool(), opt_bool(), opt_bool()),
         (
-            prop::option::weighted(0.3, plain_text(12)),
-            prop::option::weighted(0.3, plain_text(20)),
-            prop::option::weighted(0.3, plain_text(12)),
-            prop::option::weighted(0.3, plain_text(20)),
+            opt_text(0.3, plain_text(12)),
+            opt_text(0.3, plain_text(20)),
+            opt_text(0.3, plain_text(12)),
+            opt_text(0.3, plain_text(20)),
         ),
-        prop::option::weighted(0.7, small_formula()),
-        prop::option::weighted(0.3, small_formula()),
+        opt_text(0.7, small_formula()),
+        // a second formula that is present but empty next to a first one is what is left of a
+        // "between" rule that was turned into "greater than"
+        prop_oneof![4 => Just(None), 3 => Just(Some(String::new())), 3 => small_formula().prop_map(Some)],
     )
         .boxed();
     sqref_items(max, payload)
@@ -1328,13 +1391,62 @@ pub fn color_spec() -> BoxedStrategy<ColorSpec> {
     .boxed()
 }
 
+/// Differential styles in *families*: a few base styles and their single-attribute neighbours
+/// (same font and fill but another border, same font and border but another fill, ...), so that
+/// one workbook (several rules, several sheets) regularly holds styles that differ in exactly one
+/// part -- a style table that merges two of them gives a rule its sibling's looks.
+pub fn dxf_spec() -> BoxedStrategy<DxfSpec> {
+    let colors = || prop::sample::select(vec![None, Some("FFFF0000".to_string()), Some("FF0000FF".to_string()), Some("FF123456".to_string())]);
+    let base = prop::sample::select(vec![
+        DxfSpec { bold: true, italic: false, font_argb: Some("FFFF0000".to_string()), bg_argb: Some("FFFFFF00".to_string()), strike: false, border_style: 1, border_argb: None, border_sides: 0, align: 0, wrap: false },
+        DxfSpec { bold: false, italic: false, font_argb: None, bg_argb: Some("FF00FF00".to_string()), strike: false, border_style: 0, border_argb: None, border_sides: 0, align: 0, wrap: false },
+        DxfSpec { bold: false, italic: true, font_argb: Some("FF0000FF".to_string()), bg_argb: None, strike: false, border_style: 2, border_argb: Some("FFFF0000".to_string()), border_sides: 8, align: 1, wrap: false },
+    ]);
+    let neighbour = (base.clone(), 0u8..10, colors(), 0u8..=4, 0u8..16).prop_map(|(mut d, which, col, n, sides)| {
+        match which {
+            0 => d.bold = !d.bold,
+            1 => d.italic = !d.italic,
+            2 => d.font_argb = col,
+            3 => d.bg_argb = col,
+            4 => d.strike = !d.strike,
+            5 => d.border_style = n,
+            6 => {
+                d.border_style = d.border_style.max(1);
+                d.border_argb = col
+            }
+            7 => {
+                d.border_style = d.border_style.max(1);
+                d.border_sides = sides
+            }
+            8 => d.align = n % 3,
+            _ => d.wrap = !d.wrap,
+        }
+        d
+    });
+    let free = ((any::<bool>(), any::<bool>(), colors(), colors(), prop::bool::weighted(0.2)), (0u8..=4, colors(), 0u8..16, 0u8..3, prop::bool::weighted(0.2))).prop_map(
+        |((bold, italic, font_argb, bg_argb, strike), (border_style, border_argb, border_sides, align, wrap))| DxfSpec {
+            bold,
+            italic,
+            font_argb,
+            bg_argb,
+            strike,
+            border_style,
+            border_argb,
+            border_sides,
+            align,
+            wrap,
+        },
+    );
+    prop_oneof![2 => base, 4 => neighbour, 2 => free].boxed()
+}
+
 fn cf_rule() -> BoxedStrategy<CfRuleSpec> {
     (
-        (0u8..CF_TYPES.len() as u8, 0u8..=12, prop::option::weighted(0.7, small_formula())),
-        prop::option::weighted(0.6, (any::<bool>(), any::<bool>(), prop::option::weighted(0.5, argb()), prop::option::weighted(0.5, argb()))),
-        (prop::option::weighted(0.8, plain_text(8)), opt_bool(), opt_bool(), prop::option::weighted(0.5, 1u32..1000), opt_bool()),
+        (0u8..CF_TYPES.len() as u8, 0u8..=12, opt_text(0.7, small_formula())),
+        prop::option::weighted(0.7, dxf_spec()),
+        (opt_text(0.7, plain_text(8)), opt_bool(), opt_bool(), prop::option::weighted(0.5, 1u32..1000), opt_bool()),
         (prop::option::weighted(0.5, -3i32..4), opt_bool(), opt_bool(), 0u8..=10),
-        (prop::collection::vec((0u8..6, prop::option::weighted(0.7, "[0-9]{1,3}".prop_map(|s| s))), 2..=3), prop::collection::vec(color_spec(), 1..=3)),
+        (prop::collection::vec((0u8..6, opt_text(0.6, "[0-9]{1,3}".prop_map(|s| s).boxed())), 2..=3), prop::collection::vec(color_spec(), 1..=3)),
     )
         .prop_map(move |((kind, operator, formula), dxf, (text, percent, bottom, rank, stop_if_true), (std_dev, above_average, equal_average, time_period), (cfvo, colors))| {
             let k = CF_TYPES[kind as usize];
@@ -1361,7 +1473,7 @@ fn cf_rule() -> BoxedStrategy<CfRuleSpec> {
                 },
                 priority: 0,
                 formula: if visual > 0 { None } else { formula },
-                dxf: if visual > 0 { None } else { dxf.map(|(bold, italic, font_argb, bg_argb)| DxfSpec { bold, italic, font_argb, bg_argb }) },
+                dxf: if visual > 0 { None } else { dxf },
                 text: if uses_text { text } else { None },
                 percent: if top10 { percent } else { None },
                 bottom: if top10 { bottom } else { None },
@@ -1487,7 +1599,7 @@ pub fn annot_sheet(max: usize, feat: Feat) -> BoxedStrategy<AnnotSheet> {
         (disjoint_rects(max, true), name_specs(max, true), link_specs(max), comment_specs(max)),
         (dv_specs(max), cf_specs(max.min(12)), prop::option::weighted(0.4, any_rect()), prop::option::weighted(0.4, color_spec())),
         (prop::option::weighted(0.6, view_spec()), opt_w(wsac, cell()), page_spec()),
-        (prop::option::weighted(0.4, header_text(feat)), prop::option::weighted(0.4, header_text(feat)), prop::option::weighted(0.4, sheet_prot())),
+        (opt_text(0.4, header_text(feat)), opt_text(0.4, header_text(feat)), prop::option::weighted(0.4, sheet_prot())),
         (0u8..4, prop::bool::weighted(0.12)),
     )
         .prop_map(move |((merges, names, links, comments), (validations, cond_formats, auto_filter, tab_color), (view, ws_active_cell, page), (header, footer, protection), (state, removed))| AnnotSheet {
@@ -1602,7 +1714,7 @@ pub fn links_wb(tier: Tier) -> BoxedStrategy<AnnotWb> {
         5 => url().prop_map(|u| (false, u)),
         2 => location().prop_map(|l| (true, l)),
     ];
-    let links = prop::collection::vec((col_pos(), row_pos(), target, prop::option::weighted(0.3, nonempty_text(12))), 2..=24).prop_map(|v| {
+    let links = prop::collection::vec((col_pos(), row_pos(), target, opt_text(0.3, nonempty_text(12))), 2..=24).prop_map(|v| {
         let mut seen = BTreeSet::new();
         v.into_iter()
             .filter(|(c, r, _, _)| seen.insert((*c, *r)))
